@@ -196,6 +196,9 @@ def run_case(ctx, q, data, info):
 
 
 DIRECTED = [
+    # displays with a spread element, indexed from either end, with zero under a minus sign, with a truth value
+    ("Select(EventDataset(), lambda e: ((e.met, *(e.x, e.y))[-2], (e.met, *(e.x, e.y))[0], (*(e.x, e.y), e.met)[-1], [e.met, *[e.x, e.y], e.nv][-3]))", "spread-display"),
+    ("Select(EventDataset(), lambda e: ((e.x, e.y)[-0], (e.x, e.y)[-False], [e.x, e.y][True], (lambda t, i: t[-i])((e.x, e.y), 0)))", "minus-zero-index"),
     # (text, naming tag) - the capture/shadowing traps of the property statement, always exercised
     ("Select(EventDataset(), lambda e: (lambda x: Select(x.jets, lambda x: x.pt))(e))", "shadow-called"),
     ("Select(EventDataset(), lambda y: Select(y.jets, lambda j: (lambda x: Select(j.trks, lambda y: x + y.pt))(y.met)))", "capture-called"),
